@@ -45,6 +45,16 @@ CHECKS = {
         design="8/C13",
         note=TRUST + "det by Leibniz formula; bounded layer for text I/O, SciPy splines and sine-series weights; two recorded findings (Fourier2, from_molecule).",
         technique="contract-based deductive verification: AST symbolic execution with pointful NumPy semantics + lemma chains, z3; bounded run-time contracts as labelled stand-in"),
+    "C04": dict(
+        category="proof",
+        text="transform_1d_grid over an abstract transform with the C03 contract (monotone, deriv = T') and an abstract OneDGrid: nodes are the mapped "
+             "nodes, weights = |T'| w (fails for decreasing maps on the unchanged tree: recorded finding with a proved signature obligation), "
+             "non-negativity, ordered image domain containing every node (min/max reductions instantiated by witnesses), OneDGrid.__init__ "
+             "accepts the result, TypeError/ValueError paths; plus the C03 clauses it relies on (deriv = D transform, monotone) re-generated "
+             "for every real class. Bounded layer: 13 rules x 11 transforms, finite-difference Jacobians, reference integrals, GL exactness.",
+        design="8/C04",
+        note=TRUST + "abstract contracts are instantiated at the indices each path mentions; transported exactness and reference integrals are bounded only.",
+        technique="contract-based deductive verification over abstract (uninterpreted) transform/grid contracts, z3; bounded run-time contracts as labelled stand-in"),
 }
 NOT_YET = {}
 
